@@ -16,6 +16,7 @@ GLOBALS = ["GA", "GB"]
 FUNCS = ["fa", "fb"]
 CPPS = ["ca"]
 CLASSES = ["KA"]
+CONVS = ["ca", "cb", "cc"]
 NSLOTS = 3
 NTHREADS = 4
 
@@ -28,6 +29,7 @@ class Eng:
         self.funcs = {}
         self.cpps = {}
         self.classes = {}
+        self.convs = {}
         self.used = False
         self.usecount = 0
 
@@ -54,6 +56,8 @@ def gen_history(rng, usedir):
             out.append("probe:%d:%d:%s(1):%s" % (s, t, nm, "int:%d" % (1 + e.cpps[nm]) if nm in e.cpps else "!ERR"))
         for nm in CLASSES:
             out.append("probe:%d:%d:%s().get():%s" % (s, t, nm, "int:%d" % e.classes[nm] if nm in e.classes else "!ERR"))
+        for nm in CONVS:
+            out.append("probe:%d:%d:tgt_%s(mk_%s()):%s" % (s, t, nm, nm, "int:%d" % e.convs[nm] if nm in e.convs else "!ERR"))
         return out
 
     for _ in range(n):
@@ -97,7 +101,12 @@ def gen_history(rng, usedir):
             if nm not in e.cpps:
                 e.cpps[nm] = v
                 ops.append("addfn:%d:%d:%s:%d" % (s, t, nm, v))
-        elif k < 0.88:
+        elif k < 0.86:
+            nm = rng.choice(CONVS)
+            if nm not in e.convs:
+                e.convs[nm] = v
+                ops.append("addconv:%d:%d:%s:%d" % (s, t, nm, v))
+        elif k < 0.91:
             nm = rng.choice(CLASSES)
             if nm not in e.classes:
                 e.classes[nm] = v
@@ -147,7 +156,7 @@ def run(ctx, tier, seed, scale=1.0):
                 # discriminate by what leaked/was lost and where the probe ran
                 step = p[1]
                 thread = "main-thread" if ":0:" in step.split("[")[1][:14] else "worker-thread"
-                what = "local" if any(":%s:" % nm in step for nm in LOCALS) else ("global" if any(":%s:" % nm in step for nm in GLOBALS) else "function-or-class")
+                what = "local" if any(":%s:" % nm in step for nm in LOCALS) else ("global" if any(":%s:" % nm in step for nm in GLOBALS) else ("conversion" if ("tgt_" in step or "addconv" in step) else "function-or-class"))
                 ctx.violation("%s:%s:%s" % (p[0], what, thread), {"history": h, "failed": p[1:]})
             if len(ctx.samples) < 3 and rng.random() < 0.01:
                 ctx.sample({"history": h[:40]})
@@ -158,6 +167,6 @@ def run(ctx, tier, seed, scale=1.0):
     finally:
         shutil.rmtree(usedir, ignore_errors=True)
     ctx.rule = ("one case = one history of 8-35 operations over 3 engine slots (fixed address re-used by placement new, or heap) and 4 threads (main + 3 "
-                "long-lived workers) with colliding names; after every operation all live engines are probed for every name on the acting thread and a "
+                "long-lived workers) with colliding names (locals, globals, script functions, C++ functions, classes, user type conversions); after every operation all live engines are probed for every name on the acting thread and a "
                 "random one; non-trivial iff the history creates >= 2 engines; distinct by operation list")
     ctx.assumptions += ["operations are executed one at a time (on different threads); concurrency is C13's subject"]
